@@ -274,6 +274,25 @@ def spaceGenOK (n : Nat) (R : List Con) (g : Gen) : Bool :=
 
 def spaceOK (n : Nat) (R : List Con) (gs : List Gen) : Bool := gs.all (spaceGenOK n R)
 
+/-- generator-wise check of `decreasing_mu_space` (`all_affine_quasi_ranking_functions_MS`) -/
+def decrGenOK (n : Nat) (R : List Con) (g : Gen) : Bool :=
+  match g.kind with
+  | .point => decide (0 < g.div) && implies (2*n) R (decrRow n g.coords g.div)
+  | .ray => implies (2*n) R (decrRow n g.coords 0)
+  | .line => implies (2*n) R (decrRow n g.coords 0) && implies (2*n) R (decrRow n (g.coords.map (- ·)) 0)
+  | .cpoint => false
+
+/-- generator-wise check of `bounded_mu_space` -/
+def boundGenOK (n : Nat) (R : List Con) (g : Gen) : Bool :=
+  match g.kind with
+  | .point => decide (0 < g.div) && implies (2*n) R (valueRow n g.coords)
+  | .ray => implies (2*n) R (valueRow n g.coords)
+  | .line => implies (2*n) R (valueRow n g.coords) && implies (2*n) R (valueRow n (g.coords.map (- ·)))
+  | .cpoint => false
+
+def quasiOK (n : Nat) (R : List Con) (decreasing : Bool) (gs : List Gen) : Bool :=
+  gs.all (if decreasing then decrGenOK n R else boundGenOK n R)
+
 /-- homogeneous conditions, general form: non-increasing and bounded from below -/
 def homGenOK (n : Nat) (R : List Con) (c : List Int) : Bool :=
   implies (2*n) R (decrRow n c 0) && lowerBoundedB (2*n) R (valueRow n c).coeffs (valueRow n c).k
